@@ -247,6 +247,16 @@ Proof.
     exists v. apply in_combine_r in Iy. exact Iy.
 Qed.
 
+Theorem unstr_attrs_present rec c c' fds fs j :
+  lookup_cls Sg c = Some fds -> ustep Sg rec (Some (PyCls c)) (VObj c' fs) = Ok j ->
+  forall f, In f fds -> exists x, assoc (fname f) fs = Some x.
+Proof.
+  intros L H f If. cbn [ustep] in H. rewrite L in H.
+  destruct (mapM (ufield rec fs) fds) as [kvs| |] eqn:E; cbn in H; try discriminate.
+  destruct (mapM_ok_each _ _ _ f E If) as [y [_ Ey]]. unfold ufield in Ey.
+  destruct (assoc (fname f) fs) as [x|]; [exists x; reflexivity | discriminate].
+Qed.
+
 (* parse direction: an absent property with a default is accepted and reads as that default *)
 Theorem absent_reads_default rec m f : assoc (fwire f) m = None -> fdefault f <> NoDefault ->
   sfield rec (JObj m) f = Ok (fname f, match fdefault f with DefaultStr s => VStr s | _ => VNone end).
@@ -268,9 +278,30 @@ Proof.
 Qed.
 (* a pass-through hook (the shape registered for Union[<open enum>, str|int]) returns every primitive unchanged *)
 Definition passthrough_hook (h : hook) : Prop :=
-  exists t, h = TIf (CIsNone HObj) (TRet RNone) (TIf (CIsPrim HObj) (TRet (RSelf HObj)) t).
+  (exists t, h = TIf (CIsNone HObj) (TRet RNone) (TIf (CIsPrim HObj) (TRet (RSelf HObj)) t)) \/ h = TRet (RSelf HObj).
 Theorem passthrough_accepts_any_prim rec h j : passthrough_hook h -> is_prim j = true -> hrun py_str rec h j = Ok (embed j).
-Proof. intros [t ->] P. destruct j; try discriminate; reflexivity. Qed.
+Proof. intros [[t ->] | ->] P; destruct j; try discriminate; reflexivity. Qed.
+
+(* at a union position with a registered pass-through hook, every primitive is accepted unchanged ... *)
+Theorem open_site_accepts rec ms h j : lookup_uhook Sg (PyUnion ms) = Some h -> passthrough_hook h -> is_prim j = true ->
+  step rec (PyUnion ms) j = Ok (embed j).
+Proof. intros L P J. cbn [Sem.step]. rewrite L. apply passthrough_accepts_any_prim; assumption. Qed.
+(* ... and serialises back to itself (run-time class dispatch on a primitive) *)
+Definition not_optional_pair (ms : list pty) : bool :=
+  match ms with [a; b] => negb (is_none a) && negb (is_none b) | [] | [_] => false | _ => true end.
+Theorem open_site_roundtrip rec ms j : not_optional_pair ms = true -> is_prim j = true ->
+  ustep Sg rec (Some (PyUnion ms)) (embed j) = Ok j.
+Proof.
+  intros N J. destruct j; try discriminate; cbn [embed];
+    (destruct ms as [|a0 [|b0 [|c0 l0]]]; try discriminate; cbn [ustep];
+     [cbn in N; apply andb_true_iff in N; destruct N as [Na Nb]; apply negb_true_iff in Na; apply negb_true_iff in Nb; rewrite Na, Nb; reflexivity
+     | reflexivity]).
+Qed.
+(* a member of a closed enumeration serialises to its value *)
+Theorem enum_member_unstructures n e m j : n >= 2 -> (m = VStr j \/ False) -> unstr Sg (S n) (Some (PyEnum e)) (VEnum e m) = Ok (JStr j).
+Proof. intros Hn [-> | []]. destruct n as [|[|n]]; try lia. reflexivity. Qed.
+Theorem enum_member_unstructures_int n e z : n >= 2 -> unstr Sg (S n) (Some (PyEnum e)) (VEnum e (VInt z)) = Ok (JInt z).
+Proof. intros Hn. destruct n as [|[|n]]; try lia. reflexivity. Qed.
 
 (* ------------------------------------------------------------------ C15 (class level): undeclared keys are invisible *)
 Lemma assoc_app_fresh {A} k (m ex : list (string * A)) : ~ In k (keys ex) -> assoc k (m ++ ex) = assoc k m.
